@@ -741,6 +741,52 @@ func (g *cg) writesOf(name string, seen map[string]bool) map[string]bool {
 	return w
 }
 
+// escapes: does the statement assign a variable declared outside it, or return?
+func (g *cg) escapes(st ast.Stmt) bool {
+	inner := map[types.Object]bool{}
+	ast.Inspect(st, func(n ast.Node) bool {
+		switch a := n.(type) {
+		case *ast.AssignStmt:
+			if a.Tok == token.DEFINE {
+				for _, l := range a.Lhs {
+					if id, ok := l.(*ast.Ident); ok {
+						inner[g.p.info.Defs[id]] = true
+					}
+				}
+			}
+		case *ast.ValueSpec:
+			for _, id := range a.Names {
+				inner[g.p.info.Defs[id]] = true
+			}
+		}
+		return true
+	})
+	esc := false
+	ast.Inspect(st, func(n ast.Node) bool {
+		switch a := n.(type) {
+		case *ast.ReturnStmt:
+			esc = true
+		case *ast.AssignStmt:
+			if a.Tok != token.DEFINE {
+				for _, l := range a.Lhs {
+					if id, ok := l.(*ast.Ident); ok && !inner[g.p.info.Uses[id]] {
+						esc = true
+					}
+					if g.isBusM(l) {
+						esc = true
+					}
+				}
+			}
+		case *ast.IncDecStmt:
+			if id, ok := a.X.(*ast.Ident); ok && !inner[g.p.info.Uses[id]] {
+				esc = true
+			}
+		}
+		return !esc
+	})
+	return esc
+}
+
 func mentions(n ast.Node, names ...string) bool {
 	found := false
 	ast.Inspect(n, func(m ast.Node) bool {
@@ -933,7 +979,15 @@ func (g *cg) stmt(s ast.Stmt, ind string) {
 		if g.pureIf(x, c, ind) {
 			return
 		}
-		g.emit(ind, "if %s then", c)
+		// an `if` whose branches neither assign a variable of the enclosing scope nor return is an ordinary action: it is emitted as
+		// one parenthesised term, so that the statements after it are not copied into the branches by the `do` elaborator
+		closed := !g.escapes(x)
+		first := len(g.lines)
+		if closed {
+			g.emit(ind, "(if %s then do", c)
+		} else {
+			g.emit(ind, "if %s then", c)
+		}
 		fr := g.fresh
 		n0 := len(g.lines)
 		g.stmts(x.Body.List, ind+"  ")
@@ -941,13 +995,23 @@ func (g *cg) stmt(s ast.Stmt, ind string) {
 			g.emit(ind+"  ", "pure ()")
 		}
 		if x.Else != nil {
-			g.emit(ind, "else")
+			if closed {
+				g.emit(ind, "else do")
+			} else {
+				g.emit(ind, "else")
+			}
 			g.fresh = fr
 			n0 = len(g.lines)
 			g.stmt(x.Else, ind+"  ")
 			if len(g.lines) == n0 {
 				g.emit(ind+"  ", "pure ()")
 			}
+		} else if closed {
+			g.emit(ind, "else pure ()")
+		}
+		if closed {
+			g.lines[len(g.lines)-1] += " : Ex Unit)"
+			_ = first
 		}
 		g.fresh = false
 	case *ast.SwitchStmt:
@@ -956,8 +1020,13 @@ func (g *cg) stmt(s ast.Stmt, ind string) {
 		}
 		tag, k := g.expr(x.Tag, kNone, ind)
 		fr := g.fresh
+		closed := !g.escapes(x)
 		if k == kMode {
-			g.emit(ind, "match %s with", tag)
+			if closed {
+				g.emit(ind, "(match %s with", tag)
+			} else {
+				g.emit(ind, "match %s with", tag)
+			}
 			hasDefault := false
 			for _, cc := range x.Body.List {
 				cl := cc.(*ast.CaseClause)
@@ -973,7 +1042,11 @@ func (g *cg) stmt(s ast.Stmt, ind string) {
 					}
 					pats = append(pats, "| ."+strings.TrimPrefix(p, "AMode."))
 				}
-				g.emit(ind, "%s =>", strings.Join(pats, " "))
+				if closed {
+					g.emit(ind, "%s => do", strings.Join(pats, " "))
+				} else {
+					g.emit(ind, "%s =>", strings.Join(pats, " "))
+				}
 				g.fresh = fr
 				n0 := len(g.lines)
 				g.stmts(cl.Body, ind+"  ")
@@ -981,7 +1054,11 @@ func (g *cg) stmt(s ast.Stmt, ind string) {
 					g.emit(ind+"  ", "pure ()")
 				}
 			}
-			g.emit(ind, "| _ =>")
+			if closed {
+				g.emit(ind, "| _ => do")
+			} else {
+				g.emit(ind, "| _ =>")
+			}
 			g.fresh = fr
 			n0 := len(g.lines)
 			if hasDefault {
@@ -993,6 +1070,9 @@ func (g *cg) stmt(s ast.Stmt, ind string) {
 			}
 			if len(g.lines) == n0 {
 				g.emit(ind+"  ", "pure ()")
+			}
+			if closed {
+				g.lines[len(g.lines)-1] += " : Ex Unit)"
 			}
 			g.fresh = false
 			return
@@ -1017,9 +1097,16 @@ func (g *cg) stmt(s ast.Stmt, ind string) {
 			kw := "else if"
 			if first {
 				kw = "if"
+				if closed {
+					kw = "(if"
+				}
 			}
 			first = false
-			g.emit(ind, "%s %s then", kw, strings.Join(cs, " || "))
+			then := "then"
+			if closed {
+				then = "then do"
+			}
+			g.emit(ind, "%s %s %s", kw, strings.Join(cs, " || "), then)
 			g.fresh = fr
 			n0 := len(g.lines)
 			g.stmts(cl.Body, ind+"  ")
@@ -1028,13 +1115,22 @@ func (g *cg) stmt(s ast.Stmt, ind string) {
 			}
 		}
 		if def != nil {
-			g.emit(ind, "else")
+			if closed {
+				g.emit(ind, "else do")
+			} else {
+				g.emit(ind, "else")
+			}
 			g.fresh = fr
 			n0 := len(g.lines)
 			g.stmts(def.Body, ind+"  ")
 			if len(g.lines) == n0 {
 				g.emit(ind+"  ", "pure ()")
 			}
+		} else if closed && !first {
+			g.emit(ind, "else pure ()")
+		}
+		if closed && !first {
+			g.lines[len(g.lines)-1] += " : Ex Unit)"
 		}
 		g.fresh = false
 	case *ast.ReturnStmt:
